@@ -94,7 +94,7 @@ func boundary(m vfMsg) bool {
 
 func TestVerifC17MsgsStream(t *testing.T) {
 	u := vk.Unit{Property: "C17", Name: "c17.tcpcl-stream", Quick: 6000, Thorough: 300000,
-		Rule: "1..12 generated TCPCLv4 messages (contact header + 7 types, numeric fields at 0/1/width maximum/random, node IDs and data of length 0/1/255/256/65535/random) are marshalled into one buffer followed by a sentinel byte and read back with ReadMessage; each must equal the written value and the reader must end exactly at the sentinel; non-trivial = stream with >= 2 messages and >= 1 boundary field; distinct by case hash"}
+		Rule: "1..12 generated TCPCLv4 messages (contact header + 7 types, numeric fields at 0/1/width maximum/random, node IDs and data of length 0/1/255/256/65535/random) are marshalled into one buffer followed by a sentinel byte and read back with ReadMessage; each must equal the written value and the reader must end exactly at the sentinel, from a bytes.Reader and from a reader that returns short reads of 1..7 bytes; non-trivial = stream with >= 2 messages and >= 1 boundary field; distinct by case hash"}
 	vk.Check(t, u, func(t *rapid.T) []vfMsg {
 		return rapid.SliceOfN(rapid.Custom(genMsg), 1, 12).Draw(t, "msgs")
 	}, func(c *vk.Ctx, ms []vfMsg) {
@@ -128,7 +128,47 @@ func TestVerifC17MsgsStream(t *testing.T) {
 		if !bytes.Equal(rest, []byte{0xA5}) {
 			c.Failf("c17.misaligned", "after reading %d messages %d bytes remain instead of the sentinel", len(want), len(rest))
 		}
+		// the same stream from a connection that delivers it in small pieces (a TCP stream may do so)
+		if buf.Len() <= 20000 {
+			cr := &vfChunkReader{data: buf.Bytes(), sizes: []int{1, 3, 2, 7, 1, 5}}
+			for i, w := range want {
+				got, err := ReadMessage(cr)
+				if err != nil {
+					c.Failf("c17.reader-dependent", "message %d (%s) is read back from a bytes.Reader but not from a reader that returns short reads: %v", i, ms[i].Kind, err)
+				}
+				if !reflect.DeepEqual(vfNorm(got), vfNorm(w)) {
+					c.Failf("c17.reader-dependent", "message %d (%s) read from a reader that returns short reads differs: got %v want %v", i, ms[i].Kind, got, w)
+				}
+			}
+			if rest, _ := io.ReadAll(cr); !bytes.Equal(rest, []byte{0xA5}) {
+				c.Failf("c17.misaligned", "short-read reader: after reading %d messages %d bytes remain instead of the sentinel", len(want), len(rest))
+			}
+		}
 	})
+}
+
+// vfChunkReader returns at most the next size of a cyclic list per Read.
+type vfChunkReader struct {
+	data  []byte
+	sizes []int
+	i     int
+}
+
+func (r *vfChunkReader) Read(p []byte) (int, error) {
+	if len(r.data) == 0 {
+		return 0, io.EOF
+	}
+	n := r.sizes[r.i%len(r.sizes)]
+	r.i++
+	if n > len(p) {
+		n = len(p)
+	}
+	if n > len(r.data) {
+		n = len(r.data)
+	}
+	copy(p, r.data[:n])
+	r.data = r.data[n:]
+	return n, nil
 }
 
 type vfCodeCase struct {
